@@ -119,6 +119,28 @@ class Iter(object):
         return self.path.events
 
 
+PART = "\u00a7part"
+LITERAL_SAFE = frozenset(["into_iter", "iter", "len", "is_empty", "as_slice", "deref", "as_ref", "borrow", "clone", "to_vec", "contains", "first", "last", "get"])
+UNROLL_MAX = 32     # longest literal list a loop over it is written out for
+UNROLL_WAYS = 64    # most ways through a written-out loop
+
+
+def _part_of(v, kp, root):
+    """Component of the value `v` of carried root key `root` that the (possibly nested) part key `kp` names."""
+    if kp == root:
+        return v
+    inner = _part_of(v, kp[1], root)
+    if inner is None or not (isinstance(inner, tuple) and inner and inner[0] == "agg" and kp[2] < len(inner[3])):
+        return None
+    return inner[3][kp[2]]
+
+
+def _agg_shape(v):
+    if isinstance(v, tuple) and v and v[0] == "agg" and v[1] in ("tuple", "adt") and v[3]:
+        return (v[1], v[2], len(v[3]))
+    return None
+
+
 class Loop(object):
     def __init__(self, lid, site, kind):
         self.id = lid
@@ -133,6 +155,36 @@ class Loop(object):
         self.stages = []        # lazy adaptors peeled off the source: (name, callable term)
         self.enumerated = False
         self.counter_key = None
+        self.shapes = {}        # carried key (or part of one) -> the aggregate it is split into, component by component
+        self.literal = None     # the elements, when the loop runs over a list written out in the function ([a, b] / vec![a, b])
+        self.head_site = None   # site of the `next` call that starts an iteration
+
+    def symbolic(self, tag, kp):
+        """The term for carried key `kp` at the loop head ('lvar') or after the loop ('lexit'); a key whose value is a
+        tuple / record on every way round the loop is that aggregate of its separately carried components."""
+        sh = self.shapes.get(kp)
+        if sh is None:
+            return (tag, self.id, kp)
+        return sh[:3] + (tuple(self.symbolic(tag, (PART, kp, i)) for i in range(len(sh[3]))),) + sh[4:]
+
+    def leaves(self, kp):
+        sh = self.shapes.get(kp)
+        if sh is None:
+            return [kp]
+        return [x for i in range(len(sh[3])) for x in self.leaves((PART, kp, i))]
+
+    def roots(self):
+        out = []
+        for k in self.carried:
+            while isinstance(k, tuple) and len(k) == 3 and k[0] == PART:
+                k = k[1]
+            if k not in out:
+                out.append(k)
+        return out
+
+    def set_exit(self, env):
+        for k in self.roots():
+            env[k] = self.symbolic("lexit", k)
 
     def __repr__(self):
         return "<Loop %s %s over %s (%d ways)>" % (self.kind, self.id[-1:], (self.source or ("?",))[:2], len(self.iters))
@@ -176,8 +228,11 @@ class PseudoCallee(object):
 class Policy(object):
     """What to evaluate in place.  `opaque`: qnames (or keys) of in-crate bodies that stay calls;
     `only`: if given, the only in-crate bodies that are evaluated in place (closures always are)."""
-    def __init__(self, opaque=(), only=None, models=True, max_depth=MAX_DEPTH, opaque_names=()):
+    def __init__(self, opaque=(), only=None, models=True, max_depth=MAX_DEPTH, opaque_names=(), self_keep=None):
         self.opaque_names = set(opaque_names)
+        # if not None: a method of `opaque_names` that the evaluated method calls on its own receiver as a whole (a sibling
+        # method of the same object) is looked into all the same, unless its name is in this set
+        self.self_keep = set(self_keep) if self_keep is not None else None
         self.opaque = set(opaque)
         self.only = set(only) if only is not None else None
         self.models = models
@@ -207,6 +262,9 @@ class Evaluator(object):
         self.n_ends = 0
         self._prom = {}
         self.pure_targs = {}
+        self.tainted_literals = set()
+        self.unrolling = {}    # site of a loop-head `next` -> the element it yields now (None: exhausted), while a loop is written out
+        self.agg_targs = {}    # aggregate term -> set of tuples of its type arguments, in the evaluated function's generics
         self.enumerated = set()
         self.subst = {}        # fid -> {generic parameter name: type string in the root's vocabulary}
         self.inlined = set()   # keys of bodies evaluated in place
@@ -517,7 +575,11 @@ class Evaluator(object):
                 name = rv["closure"]
             else:
                 name = a
-            return ("agg", a, name, tuple(self.operand(fid, body, env, x) for x in rv["ops"]), tuple(rv.get("fields", [])))
+            t = ("agg", a, name, tuple(self.operand(fid, body, env, x) for x in rv["ops"]), tuple(rv.get("fields", [])))
+            if a == "adt" and rv.get("args"):
+                sb = self.subst.get(fid, {})
+                self.agg_targs.setdefault(t, set()).add(tuple(_subst_ty(x["s"], sb) for x in rv["args"] if x.get("k") == "ty"))
+            return t
         if k == "repeat":
             return ("agg", "repeat", "repeat", (self.operand(fid, body, env, rv["op"]),), ())
         return ("const", "<%s>" % k)
@@ -559,6 +621,11 @@ class Evaluator(object):
                     if not p["p"]:
                         env[(fid, p["l"])] = v
                     else:
+                        upd = _agg_update(env.get((fid, p["l"])), p["p"], v)
+                        if upd is not None:
+                            # a field of a record that lives in a local by value: the record changes, memory does not
+                            env[(fid, p["l"])] = upd
+                            continue
                         pt, cell = self.place(fid, body, env, p, want_cell=True, for_store=True)
                         if cell is not None:
                             env[cell] = v
@@ -661,21 +728,30 @@ class Evaluator(object):
                 if live(nb):
                     out.append((nb, p))
             return out
-        # integer match
+        # integer match: each arm decides `d == v`, the default arm decides `d != v` for every arm value
         dn = d
+        known_ne = set()
         for (ct, cv, cn, cs) in path.conds:
-            if ct == dn and cv != "otherwise":
-                nxt = t["otherwise"]
-                for v, b in arms:
-                    if v == cv:
-                        nxt = b
-                return [(nxt, path)]
+            if cn is None and isinstance(ct, tuple) and ct[0] == "bin" and ct[1] == "Eq" and ct[2] == dn and ct[3][0] == "int" and cv in (0, 1):
+                if cv == 1:
+                    nxt = t["otherwise"]
+                    for v, b in arms:
+                        if v == ct[3][1]:
+                            nxt = b
+                    return [(nxt, path)]
+                known_ne.add(ct[3][1])
         out = []
-        for v, b in arms + [("otherwise", t["otherwise"])]:
-            if live(b):
+        for v, b in arms:
+            if v not in known_ne and live(b):
                 p = path.copy()
-                p.conds.append((dn, v, None, site))
+                p.conds.append((("bin", "Eq", dn, ("int", v)), 1, None, site))
                 out.append((b, p))
+        if live(t["otherwise"]):
+            p = path.copy()
+            for v, b in arms:
+                if v not in known_ne:
+                    p.conds.append((("bin", "Eq", dn, ("int", v)), 0, None, site))
+            out.append((t["otherwise"], p))
         return out
 
     # ------------------------------------------------------------------ calls
@@ -694,7 +770,11 @@ class Evaluator(object):
             results = [("val", env, path, ("cast", "IntToInt", args[0]))]   # integer / bool widening: the value itself
         if results is None and self.policy.models:
             # the head of one iteration of a `for` / `while let` loop
-            if (region is not None and c.name == "next" and c.trait in ITER_TRAITS and not path.events and not path.conds
+            if region is not None and region[2].head_site == site and site in self.unrolling:
+                # the loop is being written out element by element: this `next` yields the element whose turn it is
+                x = self.unrolling[site]
+                results = [("val", env, path, NONE if x is None else some(x))]
+            elif (region is not None and c.name == "next" and c.trait in ITER_TRAITS and not path.events and not path.conds
                     and region[2].source is None and args and not _mentions_loop(args[0], region[2].id)):
                 L = region[2]
                 L.kind = "for"
@@ -712,6 +792,8 @@ class Evaluator(object):
                     L.iter_ty = None
                     self.enumerated.add(L.id)
                 self.callees[site] = c
+                L.head_site = site
+                L.literal = self.literal_seq(L.raw_source, env)
                 results = [("val", env, path, ("iternext", L.id))]
                 self.enum_of[("iternext", L.id)] = OPTION
             else:
@@ -721,7 +803,7 @@ class Evaluator(object):
                     results = m(self, Cx(fid, body, bb, env, path, site, c, t["args"]), args)
         if results is None:
             tb = self.facts.target_bodies(c, precise=True) if not c.indirect else []
-            if len(tb) == 1 and self._may_inline(fid, tb[0]):
+            if len(tb) == 1 and (self._may_inline(fid, tb[0]) or self._sibling_call(fid, tb[0], args)):
                 results = self.inline(fid, bb, tb[0], args, env, path, upvars=None, callee=c)
         if results is None:
             results = self.opaque(site, c, args, env, path)
@@ -769,6 +851,10 @@ class Evaluator(object):
         env["mem"] = keep
 
     def opaque(self, site, c, args, env, path):
+        for a in args:
+            # a written-out list handed to code that may change it is no longer known element by element
+            if isinstance(a, tuple) and a and a[0] == "agg" and a[1] in ("array", "veclit") and c.name not in LITERAL_SAFE:
+                self.tainted_literals.add(a)
         if c.name in PURE_OBSERVERS and not getattr(c, "local", False) and args and all(self._immutable_input(a) for a in args):
             # asking the same question about something nobody can change gives the same answer: one atom, not one per site
             site = ("pure", c.name, args)
@@ -805,6 +891,20 @@ class Evaluator(object):
             ty = root[0].locals[t[1]]["ty"] if t[1] < len(root[0].locals) else ""
             return ty.startswith("&") and not ty.startswith("&mut ")
         return False
+
+    def _sibling_call(self, fid, tb, args):
+        pol = self.policy
+        if pol.self_keep is None or tb.is_closure or tb.name not in pol.opaque_names or tb.name in pol.self_keep:
+            return False
+        if tb.qname in pol.opaque or tb.key in pol.opaque or len(fid) >= pol.max_depth or not args:
+            return False
+        root = self.frames.get(())
+        if root is None or root[0].key == tb.key or root[0].self_head != tb.self_head or not isinstance(tb.self_head, str):
+            return False
+        a = args[0]
+        while isinstance(a, tuple) and a and a[0] == "cast":
+            a = a[2]
+        return a == ("param", 1) and all(k != tb.key for (_, k) in fid)
 
     def _may_inline(self, fid, tb):
         if not self.policy.inline(tb):
@@ -900,10 +1000,12 @@ class Evaluator(object):
         (end, env, path, ret, target)."""
         carried = set()
         res = []
-        for attempt in range(8):
+        L.shapes = {}
+        refused = set()
+        for attempt in range(24):
             env0 = dict(env)
             for k in carried:
-                env0[k] = ("lvar", L.id, k)
+                env0[k] = L.symbolic("lvar", k)
             L.source = L.raw_source = None
             env0.pop("mem", None)   # forwarded stores do not survive a loop head (the body may overwrite the place)
             res = iterate(env0)
@@ -914,22 +1016,45 @@ class Evaluator(object):
                         continue
                     if k not in carried and e_env.get(k) != v:
                         written.add(k)
-            if not written:
+            if written:
+                carried |= written
+                continue
+            # a carried tuple / record that is rebuilt component by component on every way round is carried by components
+            split = None
+            for k in sorted(carried, key=repr):
+                for kp in L.leaves(k):
+                    if kp in refused:
+                        continue
+                    sh = _agg_shape(_part_of(env[k], kp, k))
+                    if sh is None:
+                        continue
+                    again = [_part_of(e_env.get(k), kp, k) for (end, e_env, e_path, ret, target) in res if end == "continue"]
+                    if again and all(_agg_shape(a) == sh for a in again):
+                        split = (kp, _part_of(env[k], kp, k))
+                        break
+                    refused.add(kp)
+                if split:
+                    break
+            if split is None:
                 break
-            carried |= written
+            L.shapes[split[0]] = split[1]
         else:
             raise NotLoopFree("loop-carried state of %s does not stabilise" % (L.id,))
-        L.carried = dict((k, env[k]) for k in carried)
+        L.carried = dict((kp, _part_of(env[k], kp, k)) for k in carried for kp in L.leaves(k))
         L.iters = []
         for (end, e_env, e_path, ret, target) in res:
             ups = {}
             for k in carried:
-                v = simplify(e_env.get(k), e_path)
-                lv = ("lvar", L.id, k)
-                # writing back the value the variable is known to have on this way is no change
-                if v is not None and v[0] == "int" and any(ct == lv and cn is None and cv == v[1] for (ct, cv, cn, cs) in e_path.conds):
-                    v = lv
-                ups[k] = v
+                for kp in L.leaves(k):
+                    v = _part_of(e_env.get(k), kp, k)
+                    if v is None and end == "continue":
+                        raise NotLoopFree("loop-carried component %r of %s is not rebuilt on a way round" % (kp, L.id))
+                    v = simplify(v, e_path)
+                    lv = ("lvar", L.id, kp)
+                    # writing back the value the variable is known to have on this way is no change
+                    if v is not None and v[0] == "int" and any(cn is None and ((ct == ("bin", "Eq", lv, v) and cv == 1) or (ct == lv and cv == v[1])) for (ct, cv, cn, cs) in e_path.conds):
+                        v = lv
+                    ups[kp] = v
             L.iters.append(Iter(e_path, end, ups, ret=ret, target=target, env=e_env))
         return L
 
@@ -949,6 +1074,10 @@ class Evaluator(object):
 
         self.loop_fixpoint(L, env, iterate)
         self.classify(L)
+        if L.kind == "for" and L.literal is not None and L.head_site is not None and not L.stages:
+            items = self.unroll(fid, body, header, blocks, L, env, path)
+            if items is not None:
+                return items
         L = self.wrap_flatten(L)
         items = []
         for idx, it in enumerate(L.iters):
@@ -963,8 +1092,7 @@ class Evaluator(object):
             if it.end in ("break", "done"):
                 e2 = dict(it.env)
                 if it.end == "done":
-                    for k in L.carried:
-                        e2[k] = ("lexit", L.id, k)
+                    L.set_exit(e2)
                 items.append((it.target, e2, p))
             else:
                 items.append(End(it.end, it.env, p, ret=it.ret))
@@ -974,6 +1102,66 @@ class Evaluator(object):
             p = path.copy()
             p.events.append(("loop", L, None))
             items.append(End("diverge", env, p))
+        return items
+
+    def literal_seq(self, src, env):
+        """The elements, if the iterator term `src` runs over a list written out on this path."""
+        t = src
+        while isinstance(t, tuple) and t:
+            if t[0] == "cast":
+                t = t[2]
+            elif t[0] == "call":
+                c = self.callee(t[1])
+                if c is not None and not c.local and c.name in ("into_iter", "iter", "as_slice", "deref", "as_ref", "borrow") and len(t[2]) == 1:
+                    t = t[2][0]
+                else:
+                    break
+            else:
+                break
+        if isinstance(t, tuple) and t and t[0] == "agg" and t[1] in ("array", "veclit") and len(t[3]) <= UNROLL_MAX and t not in self.tainted_literals:
+            return t[3]
+        return None
+
+    def unroll(self, fid, body, header, blocks, L, env, path):
+        """Write a loop over a literal list out: the body once per element, in order.  Returns what real_loop returns,
+        or None when that would branch too much (the symbolic tabulation is used then)."""
+        site = L.head_site
+        elems = list(L.literal)
+        if L.enumerated:
+            elems = [("agg", "tuple", "tuple", (("int", i), x), ()) for i, x in enumerate(elems)]
+        live = [(dict(env), path.copy())]
+        items = []
+        saved = self.unrolling.get(site, "absent")
+        n0 = self.n_ends
+        try:
+            for x in elems + [None]:
+                self.unrolling[site] = x
+                nxt = []
+                for (e0, p0) in live:
+                    R = Loop(L.id, L.site, "for")
+                    R.head_site = site
+                    R.source = R.raw_source = L.source
+                    for e in self.run(fid, body, header, e0, p0, region=(header, blocks, R)):
+                        if e.kind == "leave":
+                            if e.bb == header:
+                                nxt.append((e.env, e.path))
+                            else:
+                                items.append((e.bb, e.env, e.path))
+                        else:
+                            items.append(e)
+                live = nxt
+                if len(live) + len(items) > UNROLL_WAYS:
+                    self.n_ends = n0
+                    return None
+            if live:
+                # the exhausted iterator did not end the loop: not a plain `for`
+                self.n_ends = n0
+                return None
+        finally:
+            if saved == "absent":
+                self.unrolling.pop(site, None)
+            else:
+                self.unrolling[site] = saved
         return items
 
     def wrap_flatten(self, L):
@@ -987,6 +1175,7 @@ class Evaluator(object):
             O.source = O.raw_source = L.source[2][0]
             O.iter_ty = c.self_arg_s
             O.carried = dict(L.carried)
+            O.shapes = dict(L.shapes)
             L.source = L.raw_source = O.elem
             L.iter_ty = None
             L.carried = dict((k, ("lvar", O.id, k)) for k in O.carried)
@@ -1114,6 +1303,8 @@ def simplify(t, path):
     for (ct, cv, cn, cs) in path.conds:
         if ct == t and cv in (0, 1) and cn is None:
             return ("int", cv)
+        if cv == 1 and cn is None and ct[0] == "bin" and ct[1] == "Eq" and ct[2] == t and ct[3][0] == "int":
+            return ct[3]
     k = t[0]
     if k == "bin":
         a, b = simplify(t[2], path), simplify(t[3], path)
@@ -1264,6 +1455,25 @@ def fold_bin(op, a, b):
     return ("bin", op, a, b)
 
 
+def _agg_update(t, projs, v):
+    """The aggregate `t` with the component named by the field projections replaced by v; None when `t` is not an
+    aggregate built on this path all the way down."""
+    if not projs or not (isinstance(t, tuple) and t and t[0] == "agg" and t[1] in ("tuple", "adt", "closure")):
+        return None
+    e = projs[0]
+    if e["k"] != "field" or e["i"] >= len(t[3]):
+        return None
+    if len(projs) == 1:
+        nv = v
+    else:
+        nv = _agg_update(t[3][e["i"]], projs[1:], v)
+        if nv is None:
+            return None
+    vals = list(t[3])
+    vals[e["i"]] = nv
+    return t[:3] + (tuple(vals),) + t[4:]
+
+
 def _kind_of(c):
     """Which family a std callee belongs to: 'option', 'result', 'iter', 'fn', 'bool', 'intrinsic' or None."""
     if c.local:
@@ -1286,6 +1496,8 @@ def _kind_of(c):
         return "try"
     if c.name in ("retain", "retain_mut") and not c.trait:
         return "vec"
+    if c.name in ("box_assume_init_into_vec_unsafe", "into_vec") and (p.startswith("std::boxed::") or p.startswith("std::slice::") or p.startswith("alloc::")):
+        return "alloc"
     if c.crate in ("rayon", "rayon_core"):
         return "rayon"
     if sh == "std::collections::hash_map::Entry":
